@@ -506,7 +506,7 @@ def corr_units(kind, D):
 
 
 def units(tier):
-    return ['stats_table', 'getitem', 'highlight', 'format_val', 'equal', 'approx', 'student', 'bonferroni', 'holm', 'native']
+    return ['stats_table', 'getitem', 'highlight', 'format_val', 'equal', 'approx', 'student', 'bonferroni', 'holm', 'formatted_init', 'native', 'native_two_reports']
 
 
 def _replay_native(name, inp):
@@ -524,6 +524,25 @@ def run_unit(unit, tier, seed, known):
     warnings.filterwarnings('ignore')
     if unit == 'native':
         return {'bounded': [mn.sweep(tier, seed)]}
+    if unit == 'formatted_init':
+        # what is rendered is what is written: the formatted report owns its dictionaries (contract shared with C20)
+        from . import C20
+        from . import report_native as rnat
+
+        def rp(name, inp):
+            probs = rnat.two_reports_case('DEFAULT')
+            return {'reproduced': bool(probs), 'observed': probs[:3], 'input_found': {'two_reports_one_formatter': True, 'verbosity': 'DEFAULT'}}
+        return C20.unit_formatted_init(tier, ID, rp)
+    if unit == 'native_two_reports':
+        from . import report_native as rnat
+        fails = []
+        for vb in ('SUMMARY', 'DEFAULT', 'INTERMEDIATE', 'FULL_DETAILS'):
+            probs = rnat.two_reports_case(vb)
+            if probs:
+                fails.append({'input': {'two_reports_one_formatter': True, 'verbosity': vb}, 'observed': probs[:3], 'expected': 'each written report carries the marks of its own results'})
+        return {'bounded': [{'name': 'two-reports-one-formatter-native', 'evaluations': 4, 'distinct': 4, 'failures': fails, 'exhaustive': True,
+                             'bound': 'one Rst object formats a report with a failing comparison, then a report without; both written afterwards; 4 verbosities',
+                             'samples': [{'two_reports_one_formatter': True, 'verbosity': 'DEFAULT'}]}]}
     D = lambda res: {'functions': [prop.discharge(res, tier, ID, lambda m, r: {'note': 'see model text'}, _replay_native)]}      # noqa
     if unit == 'stats_table':
         return D(verify_function(stats_world(), c_stats(), body_of=stats_prefix))
@@ -550,4 +569,7 @@ def run_unit(unit, tier, seed, known):
 
 
 def replay(name, inp):
+    if inp and inp.get('two_reports_one_formatter'):
+        from . import report_native as rnat
+        return rnat.replay(inp)
     return _replay_native(name or '', inp)
